@@ -337,7 +337,9 @@ def dumper_family(tier="quick"):
         "req2": [F("a"), F("b")],
         "defaults": [F("a"), F("b", O, ("value", None)), F("c", O, ("factory", list)), F("d", O, ("value", 5))],
     }
+    models["container-default"] = [F("a"), F("e", O, ("factory", dict))]
     nms = {"plain": {}, "rename": {"map": {"a": "alpha"}}, "nested": {"map": {"a": ("n", "x"), "b": ("n", "y")}},
+           "deep-e": {"map": {"e": ("p", "attrs")}},
            "list": {"as_list": True}, "list-gap": {"map": {"a": 0, "b": 2}}, "skip-b": {"skip": ["b"]}}
     cases = []
     for (mname, fields), (nname, nm), dt in itertools.product(models.items(), nms.items(), DebugTrail):
@@ -347,8 +349,10 @@ def dumper_family(tier="quick"):
             continue
         if nname == "skip-b" and mname == "req2":
             continue
+        if (nname == "deep-e") != (mname == "container-default"):
+            continue
         cases.append(DumpCase(f"dump:{mname}/{nname}/{dt.name}", fields, nm, dt))
-        if mname == "defaults" and nname in ("plain", "nested"):
+        if (mname == "defaults" and nname in ("plain", "nested")) or mname == "container-default":
             cases.append(DumpCase(f"dump:{mname}/{nname}+omit/{dt.name}", fields, nm, dt, omit_default=True))
     td = [F("a"), F("b", O, ("value", None))]
     for dt in DebugTrail:
@@ -452,9 +456,7 @@ def native_dump_check(case, cap, seed=0):
                 e = DumpBoom(name)
                 e._about = name
                 raise e
-            if isinstance(x, int) and not isinstance(x, bool):
-                return f"int:{x}"          # a converting dumper (like Decimal -> str): the dumped form differs from the value
-            return x
+            return _conv(x)                # a converting dumper (like Decimal -> str): the dumped form differs from the value
         return b
     for p in stubs:
         p.behaviour = behaviour(p.name)
@@ -493,7 +495,7 @@ def native_dump_check(case, cap, seed=0):
                     dv = d if kind == "value" else d()
                     omit = (v is dv) if dv is None else (type(v) is type(dv) and v == dv)
                 if not omit:
-                    expected[path] = f"int:{v}" if isinstance(v, int) and not isinstance(v, bool) else v
+                    expected[path] = _conv(v)
             try:
                 got = dumper(obj)
                 outcome = ("ok", got)
@@ -511,7 +513,7 @@ def native_dump_check(case, cap, seed=0):
                 flat = dict(_flatten(got, case.layout.crown))
                 if flat != expected:
                     only_omit = case.omit_default and all(
-                        (k in flat and k not in expected) and flat[k] == f"int:{_default_of(case, k)}" for k in set(flat) ^ set(expected)) \
+                        (k in flat and k not in expected) and flat[k] == _conv(_default_of(case, k)) for k in set(flat) ^ set(expected)) \
                         and all(flat[k] == expected[k] for k in set(flat) & set(expected))
                     mm("omit-default" if only_omit else "tree-shape", f"dumped {got!r}: leaves {flat!r}, expected {expected!r}")
             else:
@@ -536,10 +538,16 @@ def native_dump_check(case, cap, seed=0):
 _ABSENT = object()
 
 
+def _conv(x):
+    if x is None or isinstance(x, str):
+        return x
+    return f"conv:{x!r}"
+
+
 def _default_of(case, path):
     for f in case.fields:
-        if case.layout.paths.get(f.name) == path and f.default is not None and f.default[0] == "value":
-            return f.default[1]
+        if case.layout.paths.get(f.name) == path and f.default is not None:
+            return f.default[1] if f.default[0] == "value" else f.default[1]()
     return object()
 
 
